@@ -38,6 +38,26 @@ def opFmtSrc (j : Json) : R Json := do
   return jobj [("print", jstr printed), ("wf", Json.bool src.wf), ("spec", jopt dumpFmt spec),
     ("model", dumpRes dumpFmt (Formatter.parseFormatter printed))]
 
+/-- `{"op":"fmt.table"}`: the documented table (`FormatSpec.documented`) -/
+def opFmtTable (_ : Json) : R Json :=
+  return jarr (FormatSpec.documented.map (fun (n, ds) => jobj [("name", Json.str n),
+    ("options", jarr (ds.map (fun d => jobj [("name", Json.str d.name), ("default", Json.str d.dflt),
+      ("allowed", match d.allowed with
+        | .oneOf vs => jarr (vs.map Json.str)
+        | .code3 => Json.str "code3")])))]))
+
+/-- `{"op":"fmt.doc","name":..,"key":..,"val":..}`: is `key` an option of formatter `name`, and does it accept `val`? -/
+def opFmtDoc (j : Json) : R Json := do
+  let name ← charsF j "name"
+  let key ← charsF j "key"
+  let val ← charsF j "val"
+  match FormatSpec.optionsOf name with
+  | none => return jobj [("formatter", Json.bool false), ("option", Json.bool false), ("value", Json.bool false)]
+  | some ds =>
+    match ds.find? (fun d => d.name.toList == key) with
+    | none => return jobj [("formatter", Json.bool true), ("option", Json.bool false), ("value", Json.bool false)]
+    | some d => return jobj [("formatter", Json.bool true), ("option", Json.bool true), ("value", Json.bool (d.allowed.ok val))]
+
 def cacheKind (s : String) : R FormatCache.Kind :=
   match s with
   | "currency" => .ok .currency
@@ -52,15 +72,23 @@ def cacheKind (s : String) : R FormatCache.Kind :=
 def cacheKey (j : Json) : R FormatCache.Key := do
   return { kind := ← cacheKind (← strF j "kind"), locale := ← natF j "locale", opts := ← listF asNat j "opts" }
 
-/-- `{"op":"fmt.cache","reqs":[{"kind":"number","locale":1,"opts":[0]},..]}`: run the sequence through `step` from the
-empty cache with `make` = identity on keys; per request the key whose formatter is served and hit/miss; final size -/
+/-- `{"op":"fmt.cache","reqs":[{"kind":"time","locale":1,"opts":[0]},..],"refused":[{key}..]}`: run the sequence through
+`step` from the empty cache with `make` = identity on keys, except on the `refused` keys (ICU4X refuses them: panic);
+per request the index of the first request with the key whose formatter is served (`null` = panic), hit/miss;
+final size; `poisoning`: the outcomes of the pre-repair behaviour (`true` = served) -/
 def opFmtCache (j : Json) : R Json := do
   let reqs ← listF cacheKey j "reqs"
-  let (st, served) := FormatCache.run (fun k => k) [] reqs
-  let hits := FormatCache.runHits (fun k => k) [] reqs
-  let idx (k : FormatCache.Key) : Json := match reqs.findIdx? (· == k) with
-    | some i => jnat i
+  let refused ← listF cacheKey j "refused"
+  let make (k : FormatCache.Key) : Option FormatCache.Key := if refused.contains k then none else some k
+  let (st, served) := FormatCache.run make [] reqs
+  let hits := FormatCache.runHits make [] reqs
+  let idx (k : Option FormatCache.Key) : Json := match k with
     | none => Json.null
-  return jobj [("served", jarr (served.map idx)), ("hits", jarr (hits.map Json.bool)), ("size", jnat st.length)]
+    | some k => match reqs.findIdx? (· == k) with
+      | some i => jnat i
+      | none => Json.null
+  let old := FormatCache.runPoisoning make ([], false) reqs
+  return jobj [("served", jarr (served.map idx)), ("hits", jarr (hits.map Json.bool)), ("size", jnat st.length),
+    ("poisoning", jarr (old.map (fun o => Json.bool o.isSome)))]
 
 end Driver
